@@ -52,6 +52,9 @@ def REff.isInvoke : REff → Bool
 
 def noInvokeR (l : List REff) : Prop := l.all (fun e => !e.isInvoke) = true
 
+/-- split every `match` / `if` of the goal, looking through `let`s -/
+macro "splits" : tactic => `(tactic| repeat' (first | split | (dsimp only; split)))
+
 /-- `l₁ ~ l₂` for concatenations of the same pieces: compare element counts -/
 macro "perm_count" : tactic =>
   `(tactic| (refine List.perm_iff_count.mpr ?_; intro z;
